@@ -99,6 +99,7 @@ func main() {
 	nClock := 0
 	timeFiles := map[*ast.File]bool{}
 	runtimeFiles := map[*ast.File]bool{}
+	randFiles := map[*ast.File]string{}
 	for _, p := range pkgs {
 		if !strings.HasPrefix(p.PkgPath, module) || p.PkgPath == simrtPath || strings.HasPrefix(p.PkgPath, simrtPath+"/") {
 			continue
@@ -248,6 +249,20 @@ func main() {
 						}
 						return true
 					}
+					if ok && (pn.Imported().Path() == "math/rand" || pn.Imported().Path() == "math/rand/v2") {
+						// the process-wide random source is the simulator's
+						switch n.Sel.Name {
+						case "Int", "Intn", "Int31", "Int31n", "Int63", "Int63n", "Uint32", "Uint64", "Float64", "Float32", "Perm", "Shuffle", "Seed",
+							"IntN", "Int64", "Int64N", "Int32", "Int32N", "Uint64N", "Uint32N":
+							c.Replace(&ast.SelectorExpr{X: ast.NewIdent("__simrt"), Sel: ast.NewIdent("Rand" + n.Sel.Name)})
+							needSimrt, changed = true, true
+							nClock++
+							randFiles[f] = pn.Imported().Path()
+						case "ExpFloat64", "NormFloat64", "Read", "N":
+							die("%s: rand.%s of the process-wide source is not supported by the random-source seam", fname, n.Sel.Name)
+						}
+						return true
+					}
 					if !ok || pn.Imported().Path() != "time" {
 						return true
 					}
@@ -356,8 +371,8 @@ func main() {
 				nFP++
 			}
 
-			for _, pkgPath := range []string{"time", "runtime"} {
-				if (pkgPath == "time" && !timeFiles[f]) || (pkgPath == "runtime" && !runtimeFiles[f]) {
+			for _, pkgPath := range []string{"time", "runtime", "math/rand", "math/rand/v2"} {
+				if (pkgPath == "time" && !timeFiles[f]) || (pkgPath == "runtime" && !runtimeFiles[f]) || (strings.HasPrefix(pkgPath, "math/rand") && randFiles[f] != pkgPath) {
 					continue
 				}
 				// the file may have used the package for the rewritten calls only
